@@ -43,6 +43,13 @@ def check_core_family(prop, tier):
         s2 = _summary(out2)
         extra_viol = s2["violations"]
         extra_cov = {"minted_token_checks": s2["evaluations"], "minted_rule": s2["rule"]}
+    if prop in ("C01", "C02"):
+        # "the same holds end to end through the generic and batteries-included builders and parsers"
+        conf = dict(fam="c13", rnd=(600, 6000), nonce=(0, 0), whys=(prop,), maxops=(4, 5), deep=False, allprotos=True)
+        r = builder_pipeline(prop, tier, conf, purpose="local" if prop == "C01" else "public")
+        extra_viol = r["violations"]
+        extra_cov = {"builder_histories_executed": r["n"], "builder_builds_read_back": r["nbuilds"],
+                     "builder_model_states": r["states"]}
     fresh = verif.report(prop, s["violations"] + extra_viol, tier)
     if s["nviol"] > len(s["violations"]) and fresh == 0 and s["nviol"] > 0:
         # more violations than were kept, all kept ones are known: be conservative
@@ -77,6 +84,136 @@ def check_core_family(prop, tier):
     return 1 if fresh > 0 else 0
 
 
+TRACE_DIR = os.path.join(verif.SPEC, "trace")
+
+
+def validate_trace(module, cfg, trace_path, timeout=3000):
+    """Implementation -> specification: TLC checks every recorded behaviour in trace_path
+    against spec/trace/<module>. Returns (number of behaviours, list of rejected ones)."""
+    res = verif.run_tlc(os.path.join(TRACE_DIR, module), cfg, workers=1, timeout=timeout,
+                        env_extra={"TRACE": trace_path}, tag=module.replace(".tla", ""))
+    recs = verif.printed_records(res["out"], "RESULT")
+    if not recs:
+        tail = "\n".join(res["out"].splitlines()[-30:])
+        raise ToolError("trace validation did not finish (%s on %s):\n%s" % (module, trace_path, tail))
+    r = recs[-1]
+    return r["n"], r["bad"], res
+
+
+BUILDER_ASSUMPTIONS = [
+    "the wall clock does not jump by more than the bracket taken around each builder history",
+    "projection of concrete payloads to abstract values is done by the harness (serde_json equality; defaults recognised by creation-time bracket and exp - iat = 3600 s)",
+    "randomness: a repeated 24/32-byte nonce by chance has probability < 2^-100; bit-frequency bound false-alarm probability < 2^-64",
+]
+
+BUILDER_FAMILY = {
+    # property -> (MC family, quick random histories, thorough random histories, nonce builds quick/thorough)
+    "C13": dict(fam="c13", rnd=(2000, 50000), nonce=(0, 0), whys=("C13",)),
+    "C17": dict(fam="c17", rnd=(2000, 50000), nonce=(0, 0), whys=("C17",)),
+    "C14": dict(fam="c14", rnd=(3000, 60000), nonce=(0, 0), whys=("C14",)),
+    "C10": dict(fam="c10", rnd=(1000, 10000), nonce=(4096, 100000), whys=("C10",)),
+}
+
+
+def builder_pipeline(prop, tier, conf, purpose=None):
+    """MC_Builder -> harness execution on the real builders -> BuilderTrace validation.
+    Returns dict(states, transitions, nbeh, n, bad, violations, other, nbuilds, samples, twall, args)."""
+    thorough = tier == "thorough"
+    fam = conf["fam"]
+    beh_path = os.path.join(verif.WORK, "beh_%s_%s.ndjson" % (prop, tier))
+    if fam == "c10":
+        # the model-level part of C10 is the counter invariant of MC_Builder (family c13);
+        # the long histories come from the nonce driver
+        res = verif.run_tlc("MC_Builder.tla", "MC_Builder_c13.cfg", workers=8, timeout=1800)
+        verif.require_model_ok(res, "MC_Builder_c13")
+        behs = [b for b in verif.printed_records(res["out"], "BEH") if sum(1 for o in b["ops"] if o["op"] == "build") >= 2]
+        behs = behs[:: max(1, len(behs) // 3000)]
+    else:
+        cfg = "MC_Builder_%s%s.cfg" % (fam, "_thorough" if thorough and conf.get("deep", True) else "")
+        res = verif.run_tlc("MC_Builder.tla", cfg, workers=8, timeout=3000)
+        verif.require_model_ok(res, cfg)
+        behs = verif.printed_records(res["out"], "BEH")
+        if conf.get("maxops"):
+            behs = [b for b in behs if len(b["ops"]) <= conf["maxops"][1 if thorough else 0]]
+    if not behs:
+        raise ToolError("MC_Builder printed no behaviours")
+    verif.write_ndjson(beh_path, behs)
+    trace = os.path.join(verif.WORK, "btrace_%s_%s.ndjson" % (prop, tier))
+    args = ["run-builder", "--behaviours", beh_path, "--tier", "thorough" if conf.get("allprotos") else tier,
+            "--seed", str(verif.seed()), "--family", "c17" if fam == "c10" else fam,
+            "--random", str(conf["rnd"][1 if thorough else 0]), "--maxlen", "40", "--out", trace]
+    if conf["nonce"][0]:
+        args += ["--nonce", str(conf["nonce"][1 if thorough else 0])]
+    verif.run_pv(args, timeout=7200)
+    n, bad, tres = validate_trace("BuilderTrace.tla", "BuilderTrace.cfg", trace, timeout=7000)
+    violations = []
+    other = 0
+    if bad:
+        lines = open(trace).read().splitlines()
+        for b in bad:
+            rec = json.loads(lines[b["line"] - 1])
+            mine = any(w in b["why"] for w in conf["whys"])
+            if purpose and not rec["pr"].endswith(purpose):
+                mine = False
+            if not mine:
+                other += 1
+                log("note: behaviour %s rejected for another property: %s" % (b["id"], b["why"]))
+                continue
+            violations.append({"props": [prop], "what": "%s (behaviour %s, call %d)" % (b["why"], b["id"], b["step"]),
+                               "replay": {"kind": "builder-trace", "id": b["id"], "pr": rec["pr"], "layer": rec["layer"],
+                                          "failing_call": b["step"], "why": b["why"], "behaviour": rec,
+                                          "reproduce": "pv " + " ".join(args) + " ; validate with spec/trace/BuilderTrace.tla"}})
+    nbuilds = 0
+    sample = []
+    with open(trace) as f:
+        for i, line in enumerate(f):
+            nbuilds += line.count('"op":"build"')
+            if i in (0, n // 2, n - 1):
+                sample.append(json.loads(line))
+    for smp in sample:
+        if len(smp.get("ops", [])) > 12:
+            smp["ops"] = smp["ops"][:12] + ["... %d more calls" % (len(smp["ops"]) - 12)]
+        if "counts" in smp:
+            smp["counts"] = smp["counts"][:16] + ["..."]
+    return dict(states=res["distinct"], transitions=res["states"], nbeh=len(behs), n=n, bad=bad, violations=violations,
+                other=other, nbuilds=nbuilds, samples=sample, twall=tres["wall"], args=args)
+
+
+def check_builder_family(prop, tier):
+    """C10, C13, C14, C17: builder state machines (spec/Builder.tla).
+    MC_Builder: exhaustive call histories, properties as invariants, histories printed;
+    the harness executes every history on the real builders and records observations;
+    BuilderTrace: TLC validates the recorded behaviours (plus random long histories)."""
+    t0 = time.time()
+    conf = BUILDER_FAMILY[prop]
+    thorough = tier == "thorough"
+    r = builder_pipeline(prop, tier, conf)
+    fresh = verif.report(prop, r["violations"], tier)
+    coverage = {
+        "states": r["states"],
+        "transitions": r["transitions"],
+        "traces_validated_against_impl": r["n"],
+        "samples": r["samples"],
+        "evaluations": r["nbuilds"],
+        "distinct_nontrivial": r["n"],
+        "rule": "MC_Builder (%s) enumerates every builder call history up to the configured length (%d histories ending in build "
+                "printed); each is executed on the real builder for the protocols of the tier with concrete keys/values; plus %d "
+                "random histories (<= 40 calls)%s; one evaluation = one build call whose observed outcome (error + named key, or "
+                "payload read back through GenericParser and projected, nonce identity) TLC checked against Builder.tla; distinct = "
+                "recorded behaviours (one builder object each)" % (conf["fam"], r["nbeh"], conf["rnd"][1 if thorough else 0],
+                                               (" and %d builds per local protocol and layer for nonce freshness/statistics" % conf["nonce"][1 if thorough else 0]) if conf["nonce"][0] else ""),
+        "tlc_invariants": "Inv_DupIff, Inv_DupSticky, Inv_ExpDefault, Inv_Counter",
+        "rejected_behaviours": len(r["bad"]),
+        "rejected_for_other_properties": r["other"],
+        "trace_validation_wall_s": round(r["twall"], 1),
+        "exhaustive": False,
+    }
+    verif.write_evidence(prop, tier, coverage, BUILDER_ASSUMPTIONS + CORE_ASSUMPTIONS[:1], time.time() - t0, len(r["violations"]))
+    return 1 if fresh > 0 else 0
+
+
 REGISTRY = {}
+for _p in ("C10", "C13", "C14", "C17"):
+    REGISTRY[_p] = check_builder_family
 for _p in ("C01", "C02", "C03", "C04", "C05", "C06", "C07"):
     REGISTRY[_p] = check_core_family
